@@ -524,13 +524,18 @@ def run_check(prop, tier, seed, replay=None, jobs=None):
             counters['escalated'] = 0
             if moved and tier == 'quick' and os.environ.get('VERIF_NO_ESCALATION') != '1':
                 seen_cases = {json.dumps(c, sort_keys=True, default=str) for c in cases}
+                cap = int(os.environ.get('VERIF_ESCALATION_CAP', '20000'))     # keeps the quick tier quick on the big lanes
                 for k in (1, 2, 3):
+                    if counters['escalated'] >= cap:
+                        break
                     for c in lane.cases(tier, random.Random(seed * 31 + k * 7919 + 1)):
                         key = json.dumps(c, sort_keys=True, default=str)
                         if key not in seen_cases:
                             seen_cases.add(key)
                             cases.append(c)
                             counters['escalated'] += 1
+                            if counters['escalated'] >= cap:
+                                break
         n = len(cases)
         chunk = max(1, min(50, n // (jobs * 4) + 1))
         chunks = [cases[i:i + chunk] for i in range(0, n, chunk)]
